@@ -137,7 +137,7 @@ struct C15 : Prop {
 	cfg::World world;
 	std::map<std::string, BState> model;
 	bool armed = false;
-	uint64_t notices = 0, acks_checked = 0, iface_lost_with_children = 0, relogin_elsewhere = 0, getter_checks = 0, pings = 0, hub_logins = 0;
+	uint64_t notices = 0, acks_checked = 0, iface_lost_with_children = 0, relogin_elsewhere = 0, getter_checks = 0, pings = 0, hub_logins = 0, pings_deferred = 0;
 	bool hub_fired = false;
 
 	const cfg::Board *by_uid(const uint8_t *u) { for (auto &b : world.boards) if (!memcmp(b.uid, u, 7)) return &b; return nullptr; }
@@ -146,7 +146,7 @@ struct C15 : Prop {
 		world = cfg::from_json(e.plan["world"]);
 		model.clear(); armed = false; notices = acks_checked = iface_lost_with_children = relogin_elsewhere = getter_checks = pings = 0;
 		for (auto &b : world.boards) model[b.id] = BState();
-		hub_fired = false; hub_logins = 0;
+		hub_fired = false; hub_logins = 0; pings_deferred = 0;
 		e.bus.on_request = nullptr;
 		if (e.plan.has("hub_login_during_enum")) {
 			std::vector<uint8_t> hub = j_bytes(e.plan["hub_login_during_enum"]["hub"]), trig = j_bytes(e.plan["hub_login_during_enum"]["on_getall_of"]);
@@ -244,6 +244,12 @@ struct C15 : Prop {
 		sent.clear(); for (size_t i = o.wire_before; i < e.bus.wire.size(); i++) if (e.bus.wire[i].msg.type == MSG_SYS_PING) sent.push_back(e.bus.wire[i].msg);
 		if (st.connected) {
 			if (o.ret != 0) e.violate("COMMAND_REFUSED", "bidib_ping " + bid, "board is connected at " + hex_of(st.addr) + " but bidib_ping returned " + std::to_string(o.ret));
+			// a board beneath a lost hub the configuration does not know stays 'connected' but answers nothing: after nine unanswered pings
+			// (9 x 5 bytes of the 48-byte response budget) the next one is rightly held back
+			size_t pings_out = 0, pongs = 0;
+			for (size_t i = 0; i < o.wire_before; i++) if (e.bus.wire[i].msg.type == MSG_SYS_PING && e.bus.wire[i].msg.addr == st.addr) pings_out++;
+			for (auto &f : e.bus.done) if (!f.corrupted) for (auto &m : f.msgs) if (m.type == MSG_SYS_PONG && m.addr == st.addr) pongs++;
+			if (sent.empty() && pings_out >= pongs + 9) { pings_deferred++; return; }
 			if (sent.size() != 1 || sent[0].addr != st.addr) e.violate("COMMAND_ADDRESS", "bidib_ping " + bid, "ping for a board connected at " + hex_of(st.addr) + " put " + std::to_string(sent.size()) + " message(s) on the wire" + (sent.empty() ? std::string() : " addressed to " + sent[0].addr_str()));
 		} else {
 			if (o.ret != 1 || !sent.empty()) e.violate("COMMAND_TO_DISCONNECTED", "bidib_ping " + bid, "board is not connected but bidib_ping returned " + std::to_string(o.ret) + " and sent " + std::to_string(sent.size()) + " message(s)");
@@ -261,7 +267,7 @@ struct C15 : Prop {
 		J p = J::obj(); p.set("notices", (long long) notices); p.set("acks_checked", (long long) acks_checked); p.set("interface_lost_with_connected_children", (long long) iface_lost_with_children);
 		p.set("relogin_at_other_address", (long long) relogin_elsewhere); p.set("getter_checks", (long long) getter_checks); p.set("pings_checked", (long long) pings);
 		p.set("nodetab_restarts", (long long) (e.bus.fired.count("nodetab-restart") ? e.bus.fired["nodetab-restart"] : 0));
-		p.set("unconfigured_hub_logins_during_enumeration", (long long) hub_logins);
+		p.set("unconfigured_hub_logins_during_enumeration", (long long) hub_logins); p.set("pings_held_back_by_the_response_budget", (long long) pings_deferred);
 		f.set("probes", p);
 	}
 };
